@@ -126,6 +126,12 @@ def check(ix, rep):
             else:
                 rep.ok('R-PARTIAL', f.module.rel, f.qual, '%s:%s' % (mon.label, nc.name), '', f.node.lineno)
 
+    # ---- dense-time online operations: chunks and buffers may be empty
+    from sa.rules import emptyidx
+    ne = 0
+    for qn, c in sorted(M.operation_classes(ix, 'dense').items()):
+        ne += emptyidx.check_class(rep, c, 'dense-online')
+    rep.floor('constant indexes into chunks/buffers of dense-time online operations', ne, 45)
     # ---- bounded discrete-time operators: every list / ring-buffer index in range, no min()/max() of an empty slice
     from sa.rules import windowrule
     by = {m.kind: m for m in M.standard_monitors(ix)}
@@ -141,7 +147,9 @@ def check(ix, rep):
         'functions are checked for possibly-unbound locals (zero-iteration loops), unguarded operator look-ups by '
         'data-supplied names, positional use of the data set; total operators must not raise on data. R-INDEX: the bounded discrete-time '
         'handlers and ring-buffer operations are interpreted symbolically for arbitrary 0 <= begin <= end and trace length >= 1; every index and '
-        'every min()/max() over a slice yields a linear obligation (index in range, slice non-empty) discharged by Fourier-Motzkin elimination.')
+        'every min()/max() over a slice yields a linear obligation (index in range, slice non-empty) discharged by Fourier-Motzkin elimination. '
+        'R-EMPTYIDX: in the dense-time online operations every constant index into a chunk parameter or a buffer attribute is protected by a '
+        'non-emptiness test (an operand may deliver no sample in an update).')
     assumptions = [
         'Python semantics of isinstance dispatch and MRO as modelled by the resolver (C3 linearisation from source)',
         'the reject matrix is the one the property states: online rejects unbounded/bounded future and next; dense rejects '
